@@ -184,8 +184,14 @@ func explore(p *pool, ls *loadSpec, o exploreOpts) *ExploreResult {
 		}
 	}
 	lastLog := time.Now()
+	lastSpawn := time.Now()
 	for {
 		dispatch()
+		// all workers busy and work waiting for a while: add a worker
+		if !capped && len(p.workers) < o.Workers && p.starting < 3 && len(queue) > p.starting && time.Since(t0) > 4*time.Second && time.Since(lastSpawn) > 1500*time.Millisecond {
+			p.spawn()
+			lastSpawn = time.Now()
+		}
 		// grow the pool while the backlog is worth a worker start-up (~4 s of CPU)
 		if !capped && len(p.workers) < o.Workers && p.starting < 6 && len(queue) > p.starting {
 			avg := 0.3
